@@ -211,6 +211,9 @@ class Scope:
             s = s.parent
         return None
     def declare(self, n, var):
+        if re.match(r"^[abcejrt]_\d+$", n):
+            # the translator's own temporaries are called r_1, e_2, …: a source variable of that form could be captured
+            raise Unsupported(f"variable name {n} clashes with the translator's temporaries")
         self.vars[n] = var
 
 class Var:
@@ -1211,7 +1214,7 @@ class FnTr:
                 x = sv[k] if sv is not None else self.read_elem(sbase, ("lit", soff + k, None))
                 self.write_elem(dbase, ("lit", doff + k, None), x)
             return Val("()", "unit")
-        j = self.fresh("j")
+        j = self.fresh("j") + "'"        # not a Rust identifier: cannot clash with a source variable
         def at(base, off):
             return ("index", base, ("path", [j]) if off == 0 else ("bin", "+", ("lit", off, "usize"), ("path", [j])))
         body = [("assign", at(dbase, doff), None, at(sbase, soff))]
@@ -1648,7 +1651,7 @@ class FnTr:
                 finally:
                     self.scope = saved
             return
-        j = self.fresh("j")
+        j = self.fresh("j") + "'"        # not a Rust identifier: cannot clash with a source variable
         def at(base, off):
             return ("index", base, ("path", [j]) if off == 0 else ("bin", "+", ("lit", off, "usize"), ("path", [j])))
         m = {name: at(b, o) for name, (b, o, _, _, _) in zip(var[1], sides)}
